@@ -5,11 +5,10 @@ import Aergo.Props.C14
 #print axioms Aergo.Props.C14.every_trap_anchored
 #print axioms Aergo.Props.C14.pinned_are_sites
 #print axioms Aergo.Props.C14.admit_panics_only_at_unguarded
+#print axioms Aergo.Props.C14.admit_reaches_only_admission_sites
 #print axioms Aergo.Props.C14.execute_panics_only_at_unguarded
-#print axioms Aergo.Props.C14.validate_total_partial
+#print axioms Aergo.Props.C14.validate_total
 #print axioms Aergo.Props.C14.execute_total_partial
-#print axioms Aergo.Props.C14.validate_total_repaired
 #print axioms Aergo.Props.C14.execute_total_repaired
-#print axioms Aergo.Props.C14.admitted_executes_repaired
-#print axioms Aergo.Props.C14.validate_total_violated
+#print axioms Aergo.Props.C14.validate_total_repaired
 #print axioms Aergo.Props.C14.execute_total_violated
